@@ -31,6 +31,8 @@ class HealthCheckServer:
         self._server_protocol: asyncio.AbstractServer | None = None
         self._server: asyncio.AbstractServer | None = None
         self._health_status = HealthCheckStatus.OK
+        # transports of the client connections that are currently open
+        self._connections: set[asyncio.BaseTransport] = set()
 
     async def start(self) -> None:
         if self._server is None or not self._server.is_serving():
@@ -39,6 +41,7 @@ class HealthCheckServer:
                 lambda: _HttpServerProtocol(
                     endpoint_name=self.server_settings.endpoint_name,
                     status=lambda: self.health_status,
+                    connections=self._connections,
                 ),
                 host=self.server_settings.address,
                 port=self.server_settings.port,
@@ -50,6 +53,10 @@ class HealthCheckServer:
     async def stop(self) -> None:
         if self._server is not None:
             self._server.close()
+            # wait_closed() also waits for every accepted connection (Python 3.12+): a client that
+            # keeps an idle connection open must not hold up (and time out) the worker's shutdown
+            for transport in list(self._connections):
+                transport.close()
             await self._server.wait_closed()
             logger.info("Stopped health check server.")
 
@@ -64,13 +71,23 @@ class HealthCheckServer:
 
 
 class _HttpServerProtocol(asyncio.Protocol):
-    def __init__(self, endpoint_name: str, status: Callable[[], HealthCheckStatus]) -> None:
+    def __init__(
+        self,
+        endpoint_name: str,
+        status: Callable[[], HealthCheckStatus],
+        connections: set[asyncio.BaseTransport] | None = None,
+    ) -> None:
         super().__init__()
         self.endpoint_name = endpoint_name
         self.status = status  # read when a request is answered, not when the connection is accepted
+        self.connections = connections if connections is not None else set()
 
     def connection_made(self, transport: asyncio.BaseTransport) -> None:
         self.transport: asyncio.WriteTransport = transport  # type: ignore[assignment]
+        self.connections.add(transport)
+
+    def connection_lost(self, exc: Exception | None) -> None:  # noqa: ARG002
+        self.connections.discard(self.transport)
 
     def data_received(self, data: bytes) -> None:
         message = data.decode()
